@@ -25,8 +25,9 @@ def parseCfg? (s : String) : Option Cfg := do
   let velS ← m.lookup "vel"
   let vel ← if velS = "-" then some none else (intList? velS).map some
   let drop := (m.lookup "drop") == some "1"
+  let noOpt := (m.lookup "opt") == some "0"
   some { w := w, B := B, memory := mem, maxNeighbors := maxn, maxSize := maxsize, vel := vel,
-         drop := drop }
+         drop := drop, noOpt := noOpt }
 
 def parseLevel? (s : String) : Option Level := do
   match splitKeep s "|" with
